@@ -4,7 +4,7 @@ rule instances newly fire, and restore /repo.  Usage: seedcheck.py [seed-dir-nam
 import json, os, subprocess, sys, time
 VERIF = os.path.dirname(os.path.dirname(os.path.abspath(__file__)))
 sys.path.insert(0, VERIF)
-REPO = '/repo'
+REPO = os.environ.get('VF_REPO', '/repo')
 
 def run_all():
     from vflib import core, props
@@ -61,7 +61,7 @@ def main():
             for k, d in list(v.items())[:3]:
                 print('           %s %s :: %s' % (pid, k, d[:140].replace('\n', ' ')))
         res[s] = new
-    json.dump(res, open(os.path.join(VERIF, '.cache', 'seedcheck.json'), 'w'), indent=1)
+    json.dump(res, open(os.path.join(os.environ.get('VF_CACHE') or os.path.join(VERIF, '.cache'), 'seedcheck.json'), 'w'), indent=1)
 
 if __name__ == '__main__':
     if '--child' in sys.argv:
